@@ -1,4 +1,9 @@
 """C04 - client-to-server packets."""
 FUNCTIONS = ['socket.Socket.receive', 'async_socket.AsyncSocket.receive',
-             'socket.Socket.handle_post_request', 'async_socket.AsyncSocket.handle_post_request']
-CLAIMED = False
+             'socket.Socket.handle_post_request', 'async_socket.AsyncSocket.handle_post_request',
+             'server.Server._trigger_event', 'async_server.AsyncServer._trigger_event']
+
+LEVEL_TEXT = 'receive is verified against a per-type dispatch contract (PONG re-arms, MESSAGE fires exactly one event or one task with the payload unchanged, UPGRADE -> NOOP, CLOSE ends the session, every other type incl. 7-9 raises UnknownPacketError and changes nothing); the POST loop hands each decoded packet to receive exactly once in wire order (ghost log + loop invariant); undecodable / oversize bodies dispatch nothing'
+LEVEL_NOTE = 'ghost event log appended by the (assumed) application-handler contract; handlers do not themselves change server state (sequential model); Payload/Packet contracts of C01/C02'
+NOT_DECIDED = ['events fired by background handler tasks are proved per task, not across the scheduler', 'the 400-and-session-ended answer to a protocol error is part of handle_request (thorough tier)']
+ASSUMPTIONS = [LEVEL_NOTE]
